@@ -111,7 +111,7 @@ DEV = [
   dict(name='spin_rw_mutex_reuse_2t', unit='rw2_re', harness='h_reuse.c', defines={'LOCK': 3, 'NT': 2, 'ROUNDS': 3}, native_cflags=['-fno-sanitize=null'], cbmc=['--unwind', '16', '--slice-formula'],
        scenarios=[RE(0, 1, 1), RE(2, 0, 0), RE(1, 2, 0), RE(2, 4, 1)], timeout=1800, desc='', bounds={}),
   dict(name='queuing_rw_mutex_reuse_2t', unit='qrw2_re', harness='h_reuse.c', defines={'LOCK': 4, 'NT': 2, 'ROUNDS': 2}, native_cflags=['-fno-sanitize=null'], cbmc=QRW_CBMC,
-       scenarios=[RE(1, 1, 1), RE(1, 0, 0), RE(0, 5, 1), RE(2, 0, 1)], timeout=3600, mem_gb=16, desc='', bounds={}),
+       scenarios=[RE(1, 5, 1, ROUNDS=1), RE(0, 0, 0, ROUNDS=1)], timeout=3600, mem_gb=16, desc='', bounds={}),
   dict(name='queuing_mutex_reuse_2t', unit='qm2_re', harness='h_reuse.c', defines={'LOCK': 2, 'NT': 2, 'ROUNDS': 3},
        scenarios=[RE(a1, a2, 0) for a1 in (0, 1) for a2 in (0, 1)] + [RE(0, 0, 0, 0)], native_cflags=['-fno-sanitize=null'], cbmc=['--unwind', '16', '--slice-formula'], timeout=900, desc='', bounds={}),
 ]
